@@ -46,6 +46,20 @@ def Err.pyName : Err → String
 
 /-! ### update_conf -/
 
+/-- three facts the translator reads from the source (all `false` in the tree the findings of
+    C05 / C17 were made on; the proposed fixes turn them to `true`):
+    * `bandWhole`: `check_band_pipeline` treats a string `band_used` as one band name instead of
+      iterating over its characters;
+    * `resetPipelineCfg`: `check_conf` empties `self.pipeline_cfg` before its first round;
+    * `mergeOnlyDicts`: `update_conf` merges a user dictionary only into a default that is itself a
+      dictionary (otherwise the user's value simply replaces the default). -/
+structure MachineFlags where
+  bandWhole : Bool := false
+  resetPipelineCfg : Bool := false
+  mergeOnlyDicts : Bool := false
+  deriving Repr, DecidableEq, Inhabited
+
+
 /-- the three strings `update_conf` turns into floats -/
 def rewriteLeaf (v : JVal) : JVal :=
   if v = .str "NaN" then .float .nan
@@ -59,12 +73,14 @@ mutual
     holds a non-dictionary raises on its first item (`TypeError` on the item assignment,
     `AttributeError` on `config.get` when that item is itself a dictionary); when that user
     dictionary is empty nothing happens and the default value is kept. -/
-def updateVal (dv : Option JVal) : JVal → Except Err JVal
+def updateVal (g : Bool) (dv : Option JVal) : JVal → Except Err JVal
   | .obj sub =>
     match dv with
-    | none => (updateConf [] sub).map JVal.obj
-    | some (.obj dsub) => (updateConf dsub sub).map JVal.obj
+    | none => (updateConf g [] sub).map JVal.obj
+    | some (.obj dsub) => (updateConf g dsub sub).map JVal.obj
     | some other =>
+      if g then .ok (.obj sub)               -- `mergeOnlyDicts`: the user's dictionary replaces the default
+      else
       match sub with
       | [] => .ok other
       | (_, .obj _) :: _ => .error .attr     -- `config.get(…)` on a non-dictionary
@@ -72,12 +88,12 @@ def updateVal (dv : Option JVal) : JVal → Except Err JVal
   | leaf => .ok (rewriteLeaf leaf)
 /-- `update_conf(def_cfg, user_cfg)`: `d` is the (copied) default dictionary, the second argument
     the items of the user dictionary in order. -/
-def updateConf (d : Dict) : Dict → Except Err Dict
+def updateConf (g : Bool) (d : Dict) : Dict → Except Err Dict
   | [] => .ok d
   | (k, v) :: rest =>
-    match updateVal (Dict.lookup d k) v with
+    match updateVal g (Dict.lookup d k) v with
     | .error e => .error e
-    | .ok v' => updateConf (Dict.setKey d k v') rest
+    | .ok v' => updateConf g (Dict.setKey d k v') rest
 end
 
 /-! ### Step classes -/
@@ -160,16 +176,6 @@ def construct (o : Oracle) (k : KindDesc) (l r : ImgInfo) (cfg : Dict) : Except 
   | some _ => if k.unicodeBranch then .error .name else .error .attr
 
 /-! ### The machine's check callbacks -/
-
-/-- two facts about `state_machine.py` the translator reads from the source (both `false` in the
-    tree the findings of C05 were made on; the proposed fixes turn them to `true`):
-    * `bandWhole`: `check_band_pipeline` treats a string `band_used` as one band name instead of
-      iterating over its characters;
-    * `resetPipelineCfg`: `check_conf` empties `self.pipeline_cfg` before its first round. -/
-structure MachineFlags where
-  bandWhole : Bool := false
-  resetPipelineCfg : Bool := false
-  deriving Repr, DecidableEq, Inhabited
 
 /-- `PandoraMachine.check_band_pipeline(band_list, step, band_used)` for the `band` of a matching
     cost step: `None`/`""` needs a one-band image; a string is iterated character by character
@@ -282,7 +288,7 @@ def defaultPipeline : Dict := [("pipeline", .obj [])]
     `get_config_pipeline` kept (`{"pipeline": …}` or `{}`) -/
 def checkPipelineSection (o : Oracle) (fl : MachineFlags) (reg : List KindDesc) (user : Dict) (l r : ImgInfo)
     (m : CState) : Except Err (Dict × CState) :=
-  match updateConf defaultPipeline user with
+  match updateConf fl.mergeOnlyDicts defaultPipeline user with
   | .error e => .error e
   | .ok cfg =>
     match Dict.lookup cfg "pipeline" with
@@ -290,7 +296,7 @@ def checkPipelineSection (o : Oracle) (fl : MachineFlags) (reg : List KindDesc) 
       match machineCheck o fl reg pipeline l r m with
       | .error e => .error e
       | .ok m' =>
-        match updateConf cfg [("pipeline", .obj m'.pipelineCfg)] with
+        match updateConf fl.mergeOnlyDicts cfg [("pipeline", .obj m'.pipelineCfg)] with
         | .error e => .error e
         | .ok cfg2 =>
           match Dict.lookup cfg2 "pipeline" with
@@ -431,8 +437,8 @@ def checkImages (files : Files) (left right : JVal) : Except Err Unit :=
   | _, _ => .error .type
 
 /-- `check_input_section(user_cfg)`; `user` is what `get_config_input` kept -/
-def checkInputSection (files : Files) (sch : InputSchemas) (user : Dict) : Except Err Dict :=
-  match updateConf sch.defaults user with
+def checkInputSection (files : Files) (fl : MachineFlags) (sch : InputSchemas) (user : Dict) : Except Err Dict :=
+  match updateConf fl.mergeOnlyDicts sch.defaults user with
   | .error e => .error e
   | .ok cfg =>
     match subscript (.obj cfg) "input" with
@@ -498,7 +504,7 @@ def metadata (files : Files) (side : JVal) : ImgInfo :=
 /-- `check_conf(user_cfg, pandora_machine)` → checked configuration and the machine afterwards -/
 def checkConf (files : Files) (sch : InputSchemas) (fl : MachineFlags) (reg : List KindDesc) (user : Dict)
     (m : CState) : Except Err (Dict × CState) :=
-  match checkInputSection files sch (getConfigInput user) with
+  match checkInputSection files fl sch (getConfigInput user) with
   | .error e => .error e
   | .ok cfgInput =>
     let input := (Dict.lookup cfgInput "input").getD .null
@@ -535,30 +541,52 @@ def DsDesc.shapeOf (d : DsDesc) (name : String) : Option (List Nat) :=
 
 def mandatoryAttrs : List String := ["no_data_img", "valid_pixels", "no_data_mask", "crs", "transform"]
 
-/-- `check_dataset(dataset)` -/
-def checkDataset (d : DsDesc) : Except Err Unit :=
-  match d.shapeOf "im" with
-  | none => .error .attr
-  | some imShape =>
-    if (match d.bandIm with | some bs => !(bs.all id) | none => false) then .error .type
-    else if d.imAllNan then .error .value
-    else
-      let dispOk : Except Err Unit :=
-        match d.shapeOf "disparity" with
-        | none => .ok ()
-        | some _ =>
-          match d.bandDisp with
-          | none => .error .attr
-          | some bs =>
-            if !(bs.contains "min" && bs.contains "max") then .error .attr
-            else if d.dispMinGtMax then .error .attr
-            else .ok ()
-      match dispOk with
-      | .error e => .error e
-      | .ok () =>
-        if !(d.vars.all (fun v => v.1 == "im" || lastTwo v.2 == lastTwo imShape)) then .error .value
-        else if !(mandatoryAttrs.all (fun a => d.attrs.contains a)) then .error .attr
-        else .ok ()
+/-- the tests `check_dataset` makes, as booleans -/
+structure DsFeatures where
+  /-- `"im" in dataset` -/
+  hasIm : Bool
+  /-- no `band_im` coordinate, or every band name is a `str` -/
+  bandNamesStr : Bool
+  /-- `np.isnan(dataset["im"].data).all()` -/
+  allNan : Bool
+  /-- `"disparity" in dataset` -/
+  hasDisp : Bool
+  /-- the disparity has a `band_disp` coordinate containing "min" and "max" -/
+  dispBands : Bool
+  /-- some pixel has min > max -/
+  minGtMax : Bool
+  /-- every data variable other than `im` has the last two dimensions of `im` -/
+  sameGrid : Bool
+  /-- the five mandatory attributes are present -/
+  attrs : Bool
+  deriving Repr, DecidableEq, Inhabited
+
+def DsDesc.features (d : DsDesc) : DsFeatures :=
+  { hasIm := (d.shapeOf "im").isSome
+    bandNamesStr := match d.bandIm with | none => true | some bs => bs.all id
+    allNan := d.imAllNan
+    hasDisp := (d.shapeOf "disparity").isSome
+    dispBands := match d.bandDisp with | none => false | some bs => bs.contains "min" && bs.contains "max"
+    minGtMax := d.dispMinGtMax
+    sameGrid := match d.shapeOf "im" with
+      | none => false
+      | some s => d.vars.all (fun v => v.1 == "im" || lastTwo v.2 == lastTwo s)
+    attrs := mandatoryAttrs.all (fun a => d.attrs.contains a) }
+
+/-- `check_dataset(dataset)`: the tests in the order of the code, each with its exception class
+    (`AttributeError` for a missing image / disparity band / attribute and for min > max,
+    `TypeError` for band names, `ValueError` for an all-NaN image and a shape mismatch) -/
+def checkFeatures (f : DsFeatures) : Except Err Unit :=
+  if !f.hasIm then .error .attr
+  else if !f.bandNamesStr then .error .type
+  else if f.allNan then .error .value
+  else if f.hasDisp && !f.dispBands then .error .attr
+  else if f.hasDisp && f.minGtMax then .error .attr
+  else if !f.sameGrid then .error .value
+  else if !f.attrs then .error .attr
+  else .ok ()
+
+def checkDataset (d : DsDesc) : Except Err Unit := checkFeatures d.features
 
 /-- `check_datasets(left, right)` -/
 def checkDatasets (l r : DsDesc) : Except Err Unit :=
@@ -568,7 +596,7 @@ def checkDatasets (l r : DsDesc) : Except Err Unit :=
     match checkDataset r with
     | .error e => .error e
     | .ok () =>
-      if (l.shapeOf "disparity").isNone then .error .attr
+      if !l.features.hasDisp then .error .attr
       else if ((l.shapeOf "im").map lastTwo) != ((r.shapeOf "im").map lastTwo) then .error .attr
       else .ok ()
 
